@@ -585,6 +585,14 @@ def _err_before(case, i):
     return kind, trans
 
 
+def _context(case, i):
+    """fields of the case record that known-finding keys may refer to"""
+    h = case["hist"]
+    prev = h[i - 1] if i >= 1 else {"k": "", "p": "", "c": "", "x": "", "y": ""}
+    return {"prev": prev, "prev_token": f"{prev['k']}:{prev['x']}" if i >= 1 else "",
+            "mat_extended": any(a["p"] == "MAT" and a["k"] in ("addcov", "addiov", "transform", "addiiv") for a in h[:i])}
+
+
 def _errkind_before(case, i):
     return _err_before(case, i)[0]
 
@@ -605,7 +613,7 @@ def exec_history(arg):
         except Exception as e:  # noqa: BLE001
             name = type(e).__name__
             rec = {"model": case["model"], "hist": case["hist"][: i + 1], "step": act, "outcome": name,
-                   "message": str(e)[:200], "err_before": ":".join(_err_before(case, i)),
+                   "message": str(e)[:200], "err_before": ":".join(_err_before(case, i)), **_context(case, i),
                    "p_assignments_gt1": bool(act["p"]) and P.assigned_names(m1).count(act["p"]) > 1}
             if name in REFUSALS and not _from_canonicalisation(e):
                 problems.append(("refused", rec))
@@ -871,7 +879,7 @@ def main(tier: str, seed: int) -> int:
                         continue
                     rec = {"model": c["model"], "hist": c["hist"][: i + 1], "step": act, "field": field,
                            "outcome": OUTCOME[field], "noop": c["noop"][i], "seed": s,
-                           "same_kind_before": act["k"] == "seterr" and _errkind_before(c, i) == act["x"],
+                           "same_kind_before": act["k"] == "seterr" and _errkind_before(c, i) == act["x"], **_context(c, i),
                            "depot_before": ev.get("depot_before"), "p_assignments_gt1": ev.get("p_assignments_gt1"),
                            "event": {k: ev[k] for k in ev if k not in ("frame", "undo")}}
                     v.violation(rec, f"{act['k']}({act['p']},{act['c']},{act['x']},{act['y']}) on {c['model']} after {[a['k'] for a in c['hist'][:i]]}: {OUTCOME[field]}")
